@@ -94,13 +94,15 @@ type world struct {
 	vals   []*valInfo
 	slot0  phase0.Slot
 
-	ctrls   map[ckey]*committee
-	queue   []*hmsg // honest messages broadcast and not yet gossiped
-	honest  []*hmsg // honest messages already gossiped (mutation sources)
-	sigMemo map[string][]byte
-	ref     *reference
-	calls   int
-	nAcc    int // honest messages accepted so far
+	ctrls         map[ckey]*committee
+	queue         []*hmsg // honest messages broadcast and not yet gossiped
+	honest        []*hmsg // honest messages already gossiped (mutation sources)
+	sigMemo       map[string][]byte
+	lastConsOrder []*hmsg
+	lastCons      map[string]*hmsg // (validator, role, signer) -> last accepted single-signer consensus message
+	ref           *reference
+	calls         int
+	nAcc          int // honest messages accepted so far
 }
 
 func (w *world) now() time.Time { return time.Now() } // fake clock of the bubble
@@ -129,7 +131,7 @@ func mkShare(ks *testingutils.TestKeySet, pk []byte, meta *beaconprotocol.Valida
 func newWorld(d *sim.D, prop string) *world {
 	loadKeys()
 	cfg := d.Cfg
-	w := &world{d: d, prop: prop, ctrls: map[ckey]*committee{}, sigMemo: map[string][]byte{}}
+	w := &world{d: d, prop: prop, ctrls: map[ckey]*committee{}, sigMemo: map[string][]byte{}, lastCons: map[string]*hmsg{}}
 	w.netCfg = networkconfig.TestNetwork
 	w.slot0 = phase0.Slot(cfg.Get("start_epoch", 1000))*32 + phase0.Slot(cfg.Get("start_off", 0)%32)
 	switch cfg.Get("fork", 0) {
